@@ -392,6 +392,7 @@ func (st *State) applyContractT(fc *FuncContract, origin *ssa.Function, targs []
 func (st *State) applyContract(fc *FuncContract, origin, inst *ssa.Function, args []Val, binds []Val, siteLabel string) Val {
 	vc := st.vc
 	vc.usedContracts[fc.Key] = true
+	st.holdsAtCall(fc, siteLabel, args)
 	names := map[string]Val{}
 	for i, p := range origin.Params {
 		if i < len(args) {
@@ -592,6 +593,12 @@ func (st *State) invoke(c *ssa.CallCommon, recv Val, args []Val, site ssa.Instru
 	{
 		var tgts []string
 		for _, cl := range fc.clauses("modifies") {
+		if cl.Mode != "" && cl.Mode != st.vc.mode {
+			continue
+		}
+			if cl.Mode != "" && cl.Mode != st.vc.mode {
+				continue
+			}
 			tgts = append(tgts, splitTargets(cl.Text)...)
 		}
 		ec := &EvalCtx{st: st, names: names, pkg: vc.fn.Pkg.Pkg, tparams: tenv}
@@ -949,6 +956,9 @@ func (vc *VC) callMod(c *ssa.CallCommon, li *loopInfo, depth int) {
 // contractMod: static over-approximation of the keys a contract's modifies clauses name, with the static types at the call site.
 func (vc *VC) contractMod(fc *FuncContract, origin *ssa.Function, c *ssa.CallCommon, li *loopInfo) {
 	for _, cl := range fc.clauses("modifies") {
+		if cl.Mode != "" && cl.Mode != vc.mode {
+			continue
+		}
 		for _, tgt := range splitTargets(cl.Text) {
 			keys, ok := vc.staticTargetKeys(tgt, origin, c)
 			if !ok {
@@ -1010,6 +1020,9 @@ func (st *State) applyFuncType(fc *FuncContract, c *ssa.CallCommon, args []Val, 
 	}
 	var tgts []string
 	for _, cl := range fc.clauses("modifies") {
+		if cl.Mode != "" && cl.Mode != st.vc.mode {
+			continue
+		}
 		tgts = append(tgts, splitTargets(cl.Text)...)
 	}
 	(&EvalCtx{st: st, names: names, pkg: vc.fn.Pkg.Pkg, tparams: tenv}).havocTargets(tgts)
